@@ -69,3 +69,32 @@ Theorem C11_job_thread_never_sleeps_past_a_buffer_deadline : forall m now,
   end.
 Proof. exact NoOversleep22.dll_job22_wakeup_covers_every_deadline. Qed.
 Print Assumptions C11_job_thread_never_sleeps_past_a_buffer_deadline.
+
+(* T11.10: multi-PG end to end.  In the closed loop of two FD model nodes, ANY list of parameter groups of 1..60 bytes (any
+   data page, PDU1 format, priority, payload, positive time limit) submitted at one instant to one destination, as long as
+   they fit one frame (sum of 4 + length <= 64), leaves in ONE frame — the model's own packer applied to exactly these
+   groups in submission order — at exactly t0 + the smallest of the limits; B's subscribers are called once per group, in
+   order, with the group's own PGN and byte-identical data (and the frame's priority, the minimum); afterwards nothing is
+   queued and no collection buffer is left.  This network model is run against two real FD stacks at every check. *)
+From J1939P Require Net21Proofs Net22 Net22Bam Net22Mpg.
+Theorem C11_closed_loop_delivers_every_group : forall sa ps t0 A0 B0 g0 gs,
+  0 <= sa < 255 -> 0 <= ps < 255 -> 0 < t0 ->
+  f_snd A0 = [] /\ f_rcv A0 = [] /\ f_mpg A0 = [] /\ n_timers (base A0) = [] ->
+  f_snd B0 = [] /\ f_rcv B0 = [] /\ f_mpg B0 = [] /\ n_timers (base B0) = [] /\ Flat.accepts (base B0) ps = true ->
+  Forall Net22Mpg.subm_ok (g0 :: gs) ->
+  fold_right (fun g acc => 4 + len (Net22Mpg.u_dat g) + acc) 0 (g0 :: gs) <= 64 ->
+  let D := fold_left Z.min (map Net22Mpg.u_tl gs) (Net22Mpg.u_tl g0) in
+  D < 5000000 ->
+  let cs := map Net22Mpg.cpg_of (g0 :: gs) in
+  let pmin := fold_left (fun p c => Z.min (g_prio c) p) cs 7 in
+  let s0 := fold_left (Net22Mpg.net22_submit sa ps) (g0 :: gs) (Net22.net22_0 A0 B0 t0) in
+  exists fr, send_multi_pg ff_FEFF cs sa ps = Some fr /\
+    let s := Net22.steps22 3 s0 in
+    Net22.pa s = [] /\ Net22.pb s = [] /\ f_mpg (Net22.fa s) = [] /\ f_snd (Net22.fa s) = [] /\ f_rcv (Net22.fa s) = [] /\
+    Net22.fb s = B0 /\
+    Net22.evb2 s = concat (map (fun g => deliveries (base B0) pmin (Net22Mpg.u_dp g * 65536 + Net22Mpg.u_pf g * 256) sa ps
+                                                     (Net22Mpg.u_dat g)) (g0 :: gs)) /\
+    Net22.wab2 s = [fr] /\
+    Net22Bam.tlog22 3 s0 = [(t0 + D, fr)].
+Proof. exact Net22Mpg.mpg_closed_loop_delivers. Qed.
+Print Assumptions C11_closed_loop_delivers_every_group.
